@@ -52,6 +52,13 @@ fn scaled_family(tr: &mut Tracer, rng: &mut StdRng, x: &BigUint, k: u32, base_sc
     if n >= 2 { ys.push(BigUint::new(words[..n - 1].to_vec())); }
     ys.push(&y + (BigUint::one() << (32 * n)));
     if n >= 1 { ys.push(&y - (BigUint::from(words[n - 1] / 2 + 1) << (32 * (n - 1)))); }
+    // a non-zero digit right below the last place of the scaled operand, followed by zeros: y + d * 10^(k-1) - shifted view
+    if k >= 1 {
+        let half = pow10(k - 1);
+        ys.push(&y + &half * 5u8);
+        ys.push(&y + &half);
+        if y > half { ys.push(&y - &half); }
+    }
     for yy in ys {
         let b = wire(&yy, neg, base_scale + k as i64);
         if full { all_forms(tr, &a, &b); all_forms(tr, &b, &a); } else { some_forms(tr, rng, &a, &b); }
@@ -92,6 +99,22 @@ pub fn drive(tr: &mut Tracer, rng: &mut StdRng, thorough: bool) {
         let k: u32 = match i % 4 { 0 => rng.gen_range(1..=19), 1 => rng.gen_range(20..=45), 2 => rng.gen_range(1..=3), _ => rng.gen_range(20..=400) };
         let (bs, ng) = (rng.gen_range(-50..=50), rng.gen_bool(0.5));
         scaled_family(tr, rng, &x, k, bs, ng, i % 50 == 0);
+    }
+    // 2b. every scale difference up to 1100 with coefficients that are (nearly) powers of two: the bit-length
+    //     prefilter estimates bits(b * 10^k) from k * log2(10)
+    for k in 20..=(if thorough { 1100u32 } else { 700 }) {
+        let j = rng.gen_range(0..200u32);
+        for x in [BigUint::one(), BigUint::one() << j, (BigUint::one() << j) + 1u8, (BigUint::one() << j) - 1u8, BigUint::from(3u8), BigUint::from(rng.gen_range(1..1000u32))] {
+            if x.is_zero() { continue; }
+            let y = &x * pow10(k);
+            let a = wire(&x, false, 0);
+            for yy in [y.clone(), &y + 1u8] {
+                let b = wire(&yy, false, k as i64);
+                let f = ["eq_val", "cmp_val", "eq_dref", "cmp_dref"][(k as usize) % 4];
+                tr.emit(json!({"op": "cmp", "form": f, "a": a, "b": b}));
+                tr.emit(json!({"op": "cmp", "form": f, "a": b, "b": a}));
+            }
+        }
     }
     // 3. operands straddling the u64 / u128 fast-path limits before and after scaling
     for lim in [BigUint::from(u64::MAX), BigUint::from(u128::MAX), BigUint::from(u32::MAX)] {
